@@ -9,6 +9,7 @@
 // through handleResponsePacket, as the client transport drives a pooled connection.
 #include "common/loop.h"
 #include "common/parser_common.h"
+#include "common/rfc7230.h"
 
 #include <pistache/client.h>
 
@@ -92,10 +93,10 @@ struct Conn
     std::shared_ptr<Tcp::Peer> peer;
     int cfd;
     Obs obs;
-    Conn()
+    explicit Conn(size_t limit = kReqLimit)
     {
         handler = std::make_shared<RecHandler>();
-        handler->setMaxRequestSize(kReqLimit);
+        handler->setMaxRequestSize(limit);
         loop.reset(new lp::Loop(handler));
         cfd  = loop->connect_peer(&peer);
         gObs = &obs;
@@ -179,6 +180,8 @@ static std::vector<Event> rspEvents()
     add("r-err-version", "HTTQ/1.1 200 OK\r\n\r\n", 9, true);
     add("r-err-code", "HTTP/1.1 2x0 OK\r\n\r\n", 12, true);
     add("r-err-length-and-chunked", "HTTP/1.1 200 OK\r\nContent-Length: 3\r\nTransfer-Encoding: chunked\r\n\r\nabc", 40, true);
+    // a number that does not fit: the conversion the header's reader uses reports a range error
+    add("r-err-content-length-overflow", "HTTP/1.1 200 OK\r\nContent-Length: 99999999999999999999999\r\n\r\n", 40, true);
     add("r-err-bad-chunk-after-chunk", "HTTP/1.1 200 OK\r\nTransfer-Encoding: chunked\r\n\r\n3\r\nabc\r\nZZ\r\n", 55, true);
     return e;
 }
@@ -230,6 +233,98 @@ struct ClientConn
         return r;
     }
 };
+
+// ---- server side, back to back at the read-buffer boundary ---------------------------------------------------------
+// The transport reads in pieces of Const::MaxBuffer bytes until the socket is empty. A message padded to exactly that size
+// and its successor, written by the client in one go, therefore reach the input handler in two consecutive calls with no
+// return to the event loop (and no failing system call) in between - the closest two messages of one connection can get.
+// Oracle: handler requests and response statuses of the pair = those of the padded message alone followed by those of the
+// successor alone on a fresh connection.
+static const size_t kBigLimit = 16384;
+static std::vector<int> gBoundaryEvents; // indices into gReq (events that do not depend on the 128-byte limit)
+struct PairObs
+{
+    std::vector<std::string> requests;
+    std::string statuses;
+    std::string str() const
+    {
+        std::string s = "statuses=[" + statuses + "] requests=" + std::to_string(requests.size());
+        for (auto& r : requests)
+            s += "\n" + r;
+        return s;
+    }
+    bool operator==(const PairObs& o) const { return requests == o.requests && statuses == o.statuses; }
+};
+static std::string pad_to_read_size(const std::string& msg)
+{
+    size_t eol = msg.find("\r\n");
+    if (eol == std::string::npos || msg.size() + 10 > Const::MaxBuffer)
+        return std::string();
+    size_t need = Const::MaxBuffer - msg.size() - 9; // "X-Pad: " + CRLF
+    return msg.substr(0, eol + 2) + "X-Pad: " + std::string(need, 'p') + "\r\n" + msg.substr(eol + 2);
+}
+static bool observe(const std::string& wire, PairObs& out, uint64_t& transitions, std::string& escaped)
+{
+    Conn c(kBigLimit);
+    lp::client_send(c.cfd, wire);
+    std::string response;
+    try
+    {
+        for (int r = 0; r < 6; ++r)
+        {
+            transitions += c.loop->settle();
+            response += lp::client_recv_all(c.cfd);
+        }
+    }
+    catch (const std::exception& ex)
+    {
+        escaped = ex.what();
+        return false;
+    }
+    out.requests = c.obs.requests;
+    size_t pos   = 0;
+    while (pos < response.size())
+    {
+        rfc::Message m = rfc::parse(response.substr(pos), true);
+        if (!m.ok)
+        {
+            out.statuses += "?";
+            break;
+        }
+        out.statuses += (out.statuses.empty() ? "" : ",") + std::to_string(m.status);
+        pos += m.consumed;
+    }
+    return true;
+}
+static void run_boundary(uint64_t idx, vr::Ctx& ctx)
+{
+    const Event& P = gReq[gBoundaryEvents[idx / gBoundaryEvents.size()]];
+    const Event& S = gReq[gBoundaryEvents[idx % gBoundaryEvents.size()]];
+    std::string desc = std::string(P.name) + "/padded-to-the-read-size ++ " + S.name + "/same-write";
+    ctx.note("server boundary: " + desc);
+    std::string pp = pad_to_read_size(P.bytes);
+    if (pp.empty())
+        return;
+    uint64_t t = 0;
+    PairObs alone1, alone2, both;
+    std::string esc;
+    if (!observe(pp, alone1, t, esc) || !observe(S.bytes, alone2, t, esc) || !observe(pp + S.bytes, both, t, esc))
+    {
+        ctx.violation(std::string("c04:server:exception-escapes-the-input-handler:boundary:msg=") + S.name, "{\"sequence\":" + vr::jstr(desc) + ",\"what\":" + vr::jstr(esc) + "}");
+        return;
+    }
+    PairObs expect = alone1;
+    expect.requests.insert(expect.requests.end(), alone2.requests.begin(), alone2.requests.end());
+    if (!alone2.statuses.empty())
+        expect.statuses += (expect.statuses.empty() ? "" : ",") + alone2.statuses;
+    ctx.count("transitions", t);
+    ctx.state(vr::hash_str(both.str()));
+    ctx.nontrivial(vr::hash_str(desc));
+    if (!(both == expect))
+        ctx.violation(std::string("c04:server:differs-from-fresh:boundary:after=") + P.name + ":msg=" + S.name,
+                      "{\"sequence\":" + vr::jstr(desc) + ",\"observed\":" + vr::jstr(both.str()) + ",\"each_alone_on_a_fresh_connection\":" + vr::jstr(expect.str()) + "}");
+    ctx.outcome(std::string("server boundary ") + S.name + " -> " + both.statuses);
+}
 
 static uint64_t nReqSeqs, nRspSeqs;
 
@@ -335,6 +430,11 @@ int main(int argc, char** argv)
         rspOff.push_back(total);
         total += ipow(AS, l);
     }
+    nRspSeqs = total;
+    for (size_t e = 0; e < gReq.size(); ++e)
+        if (std::string(gReq[e].name).find("oversize") == std::string::npos)
+            gBoundaryEvents.push_back((int)e);
+    total += gBoundaryEvents.size() * gBoundaryEvents.size();
     static std::string sFreshRspParser = freshRspParser;
     static std::vector<uint64_t> sReqOff = reqOff, sRspOff = rspOff;
     return vr::run(opt, total, [](uint64_t idx, vr::Ctx& ctx) {
@@ -346,6 +446,8 @@ int main(int argc, char** argv)
                 ++l;
             run_sequence<Conn>("server", gReq, gFreshReq, gFreshParser, idx - sReqOff[l], l + 1, ctx);
         }
+        else if (idx >= nRspSeqs)
+            run_boundary(idx - nRspSeqs, ctx);
         else
         {
             int l = 0;
